@@ -53,6 +53,62 @@ def first_error(out):
     return (m.group(1) if m else out[-900:])[:900]
 
 
+def shape_space_under(feats, derive_feature, wid):
+    """The C01 shape space restricted to the derives of the enabled features, compiled with the real macro under
+    exactly that feature set: the repository's own test programs do not use every code path of a derive.
+    Returns (number of items, [(key, description, replay)])."""
+    from . import c01gen as GEN
+    enabled = {f for f in feats if f != "std"}
+    items = []
+    from .c01 import twin_lifetime_finding
+    for name, src in GEN.all_items(kinds=("plain",)):
+        if twin_lifetime_finding(name):
+            continue     # does not compile under `full` either (C01's known finding): not a matter of the feature set
+        used = set(re.findall(r"derive_more::(\w+)", src.split("]")[0]))
+        if used and all(derive_feature.get(d) in enabled for d in used):
+            items.append((name, src))
+    if not items:
+        return 0, []
+    cf = C.CaseFile(GEN.PRELUDE.replace("#![deny(warnings)]", ""))
+    for i, (name, src) in enumerate(items):
+        if "r#fn" in src:
+            src = src.replace("pub enum E", "#[allow(non_camel_case_types)] pub enum E")
+        cf.add(i, src)
+    d = C.scratch_crate(f"c20-space-{wid}", cf.source(), features=tuple(feats), default_features=False)
+    found = []
+    try:
+        env = dict(C.ENV)
+        env["CARGO_TARGET_DIR"] = os.path.join(C.SCRATCH, f"target-c20-{wid}")
+        p = subprocess.run(["cargo", "check", "--offline", "--message-format=json", "--quiet"], cwd=d, env=env,
+                           stdout=subprocess.PIPE, stderr=subprocess.PIPE, text=True, timeout=1800)
+        diags = []
+        for line in p.stdout.splitlines():
+            try:
+                m = __import__("json").loads(line)
+            except ValueError:
+                continue
+            if m.get("reason") == "compiler-message" and m["message"].get("level") in ("error", "warning"):
+                diags.append(m["message"])
+        by, stray = cf.errors_by_case(diags)
+        seen = set()
+        for cid, errs in sorted(by.items()):
+            name, src = items[cid]
+            key = (name.split("/")[2], errs[0].split(":")[0])
+            if key in seen:
+                continue
+            seen.add(key)
+            if len(seen) <= 4:
+                found.append((f"space:{','.join(feats)}:{key[0]}:{key[1]}",
+                              f"with `--no-default-features --features {','.join(feats)}`: {src[:200]} does not compile: {errs[0][:200]}",
+                              {"cmd": "compile under feature set", "features": list(feats), "item": name, "source": src, "errors": errs[:3]}))
+        if p.returncode != 0 and not by:
+            found.append((f"space:{','.join(feats)}:crate", f"a crate using derive_more with features {','.join(feats)} does not build: {(stray[0] if stray else p.stderr)[:300]}",
+                          {"cmd": "compile under feature set", "features": list(feats), "errors": (stray or [p.stderr[-2000:]])[:3]}))
+        return len(items), found
+    finally:
+        C.scratch_cleanup(d)
+
+
 def schedule(jobs):
     """Runs jobs on WORKERS target directories in parallel (cargo serialises per target directory)."""
     buckets = [[] for _ in range(WORKERS)]
@@ -112,6 +168,24 @@ def run(tier):
             if j not in seen:
                 seen.add(j); uniq.append(j)
         results = schedule(uniq)
+        derive_feature = {d["trait"]: d["feature"] for d in info["derives"]}
+        space_cfgs = []
+        for w in witness:
+            w = tuple(x for x in w if x in derive or x == "std")
+            if any(x in derive for x in w) and w not in space_cfgs:
+                space_cfgs.append(w)
+        space_cfgs += [(f,) for f in derive if (f,) not in space_cfgs]
+        if tier == "thorough":
+            space_cfgs += [(f, "std") for f in derive]
+        buckets = [[] for _ in range(WORKERS)]
+        for k, w in enumerate(space_cfgs):
+            buckets[k % WORKERS].append(w)
+        with ThreadPoolExecutor(max_workers=WORKERS) as ex:
+            space_results = [r for rs in ex.map(lambda kb: [shape_space_under(w, derive_feature, kb[0]) for w in kb[1]], enumerate(buckets)) for r in rs]
+        n_space = sum(r[0] for r in space_results)
+        for _, found in space_results:
+            for key, what, replay in found[:3]:
+                res.violation(key, what, replay)
         n_tests = 0
         bad_cfg = 0
         for mode, feats, rc, out, passed, failed in results:
@@ -140,7 +214,7 @@ def run(tier):
             "traces_validated_against_impl": len(results),
             "model_vs_impl_disagreements": bad_cfg if failing == [] else 0,
             "distribution": {"configurations": len(results), "by_mode": modes, "repo_tests_passed_in_configurations": n_tests, "failing_configurations": bad_cfg,
-                             "references": info["refs"], "references_by_kind": info["by_kind"], "failing_references": failing,
+                             "references": info["refs"], "references_by_kind": info["by_kind"], "failing_references": failing, "shape_space_items_compiled_under_feature_sets": n_space, "shape_space_feature_sets": [",".join(w) for w in space_cfgs[:40]],
                              "witness_configurations": witness, "unresolved_paths": info["unresolved"][:10]},
             "samples": [{"config": ",".join(f), "mode": m} for m, f, *_ in results[:3]],
         }
@@ -155,7 +229,7 @@ def run(tier):
     if failed and not res.violations:
         res.violation("obligations:" + ";".join(failed)[:200], "proof obligation / translator tie no longer checks: " + "; ".join(failed)[:300] +
                       (f"; failing references: {'; '.join(failing[:4])}" if failing else ""),
-                      {"failed_obligations": failed, "failing_references": failing, "witness_configurations": witness,
+                      {"failed_obligations": failed, "failing_references": failing, "shape_space_items_compiled_under_feature_sets": n_space, "shape_space_feature_sets": [",".join(w) for w in space_cfgs[:40]], "witness_configurations": witness,
                        "note": "every configuration built and tested (including the witnesses) passed"}, found_input=False)
     res.coverage.update(cov)
     res.coverage["impl_vs_oracle_failures"] = len(res.violations)
